@@ -19,6 +19,13 @@ fn repl() {
         if l.is_empty() || l.starts_with('#') {
             continue;
         }
+        if let Some(t) = l.strip_prefix(".typed ") {
+            let rows = dbsim::imagegen::typed_rows(&mut simcore::Rng::fork(t.trim().parse().unwrap_or(0), 0x7E));
+            for r in rows {
+                println!("  {:?}", sut.db.insert_row("TY", vibesql_storage::Row::new(r)).map(|_| ()));
+            }
+            continue;
+        }
         if let Some(t) = l.strip_prefix(".u ") {
             if let Some(tb) = sut.db.get_table(t.trim()) {
                 println!("  schema.pk={:?} uniques={:?}", tb.schema.primary_key, tb.schema.unique_constraints);
